@@ -103,7 +103,9 @@ class Monitor(object):
             return
         self.events.append((kind, path, extra))
         for f in self.faults:
-            if f.fired or f.kind != kind or (f.under and f.under not in path):
+            if f.fired or f.kind != kind:
+                continue
+            if f.under and not (any(u in path for u in f.under) if isinstance(f.under, (tuple, list)) else f.under in path):
                 continue
             f.seen += 1
             if f.seen == f.nth:
